@@ -18,44 +18,76 @@ def run(R, tier):
     us = P.unit("scpi")
     eng = CB.engine("scpi_contrib")
 
-    # ---- R13.1 push_error ---------------------------------------------------------------------------
-    b = uc.body(SD + "push_error")
-    res = eng.run(b, [RefV(Cell(TOP, "dev"), (), True), SymV("err", "err")])
-    ps = [CB.Path(r) for r in res]
-    good = len(ps) == 1
-    for p in ps:
-        se = p.call("set_esr")
-        pb = p.call("push_back_error")
-        em = p.call("esr_mask")
-        if not (p.count("set_esr") == 1 and p.count("push_back_error") == 1 and p.count("esr") == 1 and p.count("esr_mask") == 1):
-            good = False
-            continue
-        bo = CB.binop_of(se.args[1], "BitOr")
-        ok = bo is not None and ((CB.ret_of(bo[0], "esr") and CB.ret_of(bo[1], "esr_mask")) or (CB.ret_of(bo[1], "esr") and CB.ret_of(bo[0], "esr_mask")))
-        ok = ok and "'err'" in repr(em.args[0]) and pb.args[1] == ("sym", "err", "err")
-        ok = ok and set(p.names) == {"esr", "esr_mask", "set_esr", "push_back_error"}
-        good = good and ok
-    R.check(good, "R13.1", "push_error", "set_esr(esr() | err.esr_mask()) and push_back_error(err), once each", "push_error must OR exactly the error's class bit into ESR and append exactly that error once: %s" % [(p.describe(), [e.args[1:] for e in p.calls if e.name.endswith(('set_esr', 'push_back_error'))]) for p in ps], where=b.span)
+    # ---- R13.1 / R13.8 on the abstract device (sa/rules/devmodel.py) ----------------------------------------------------
+    from . import devmodel as DM
+    import json, os
+    from ..report import VERIF
+    deng = DM.engine()
+    EC = "scpi::error::ErrorCode"
+    ecodes = {v: k for k, v in (deng.enum_tables.get(EC) or {}).items()}
+    oracle = json.load(open(os.path.join(VERIF, "oracle", "errors.json")))
+    by_variant = {e["variant"]: e for e in oracle["errors"]}
 
-    # ---- R13.8 scpi_opc --------------------------------------------------------------------------------
+    def class_bit(code):
+        for cl in oracle["classes"]:
+            if cl["lo"] <= code <= cl["hi"]:
+                return int(cl["mask"])
+        return int(oracle["default_mask"])
+
+    def mk_err(variant, ext=None):
+        return AggV("scpi::error::Error", {0: EnumV(EC, variant, ecodes[variant], {}), 1: fdai.mk_option(ext)})
+
+    def regs():
+        return {"Operation": DM.mk_register(uc, condition=0x0101, event=0x0202, enable=0x0404), "Questionable": DM.mk_register(uc, condition=0x1010, event=0x2020, enable=0x4040)}
+
+    def state_of(d):
+        return (dict(d.r8), [_ident(x) for x in d.queue], {k: DM.reg_values(uc, c_) for k, c_ in d.regs.items()})
+
+    # push_error: ESR |= the error's class bit, the error appended once, nothing else
+    b = uc.body(SD + "push_error")
+    reps = [v for v in ("CommandError", "SyntaxError", "UndefinedHeader", "ParameterNotAllowed", "MissingParameter", "DataTypeError", "ExecutionError", "DataOutOfRange", "IllegalParameterValue",
+                        "DeviceSpecificError", "QueueOverflow", "QueryError", "QueryInterrupted", "PowerOn", "UserRequest", "RequestControl", "OperationComplete", "NoError") if v in ecodes and v in by_variant]
+    bad = []
+    n = 0
+    for v in reps:
+        bit = class_bit(int(by_variant[v]["code"]))
+        for esr in (0x00, 0xFF ^ bit, 0x81):
+            n += 1
+            dev = DM.Dev(esr=esr, ese=0x12, sre=0x34, queue=[SymV("e0", "e0")], regs=regs())
+            before = state_of(dev)
+            rs = DM.run(deng, b, dev, [RefV(Cell(SymV("device", "device"), "dev"), (), True), mk_err(v)])
+            ok = len(rs) == 1 and rs[0][0].outcome == "return"
+            if ok:
+                d = rs[0][1]
+                ok = d.r8 == {"esr": esr | bit, "ese": 0x12, "sre": 0x34} and [_ident(x) for x in d.queue] == ["e0", v] and state_of(d)[2] == before[2]
+            if not ok and len(bad) < 3:
+                bad.append("%s (%d, class bit %#04x) with ESR=%#04x: %s" % (v, int(by_variant[v]["code"]), bit, esr, [(r.outcome, d.r8, [_ident(x) for x in d.queue]) for r, d in rs]))
+    R.floor("R13.1", "error classes evaluated", len(reps), 12)
+    R.check(not bad, "R13.1", "push_error", "ESR |= the class bit of the error (IEEE 488.2 11.5.1 / SCPI-99 21.8), the error appended once at the back, nothing else changed (%d error/ESR combinations)" % n, "; ".join(bad), where=b.span)
+
+    # custom (device-defined) codes are classified by their number as well
+    if "Custom" in ecodes:
+        bad = []
+        for code in (-100, -199, -200, -299, -300, -399, -400, -499, -500, -600, -700, -800, 1, 100, -1, -99):
+            errv = AggV("scpi::error::Error", {0: EnumV(EC, "Custom", ecodes["Custom"], {0: K(code), 1: RefV(Cell(fdai.BytesV(b"custom"), "msg"))}), 1: fdai.mk_option(None)})
+            dev = DM.Dev(esr=0, regs=regs())
+            rs = DM.run(deng, b, dev, [RefV(Cell(SymV("device", "device"), "dev"), (), True), errv])
+            exp = class_bit(code)
+            if not (len(rs) == 1 and rs[0][1].r8["esr"] == exp and len(rs[0][1].queue) == 1):
+                bad.append("Custom(%d): ESR %s, expected %#04x" % (code, [d.r8["esr"] for _, d in rs], exp))
+        R.check(not bad, "R13.1", "push_error:custom-codes", "device-defined codes set the class bit of their numeric range", "; ".join(bad[:3]), where=b.span)
+
+    # scpi_opc: bit 0 accumulates, one -800 event queued
     b = uc.body(SD + "scpi_opc")
-    eng_i = CB.engine("scpi_contrib", inline=lambda n, r: r.endswith(("Error::new",)) or "From<scpi::error::ErrorCode>>::from" in r or "From<error::ErrorCode>>::from" in r)
-    res = eng_i.run(b, [RefV(Cell(TOP, "dev"), (), True)])
-    ps = [CB.Path(r) for r in res]
-    good = len(ps) == 1
-    for p in ps:
-        se = p.call("set_esr")
-        pb = p.call("push_back_error")
-        em = p.call("esr_mask")
-        if not (se and pb and em and p.count("set_esr") == 1 and p.count("push_back_error") == 1):
-            good = False
-            continue
-        bo = CB.binop_of(se.args[1], "BitOr")
-        ok = bo is not None and {CB.ret_of(bo[0], "esr"), CB.ret_of(bo[1], "esr_mask")} == {True} or (bo is not None and CB.ret_of(bo[1], "esr") and CB.ret_of(bo[0], "esr_mask"))
-        ok = ok and "OperationComplete" in repr(em.args[0]) and "OperationComplete" in repr(pb.args[1])
-        ok = ok and M.outcome(p.r) == "Ok"
-        good = good and ok
-    R.check(good, "R13.8", "scpi_opc", "ESR |= OperationComplete class bit (accumulating), OperationComplete appended once", "scpi_opc must OR the operation-complete bit into the existing ESR (not overwrite it) and queue OperationComplete once: %s" % [(p.describe(), [e.args[1:] for e in p.calls if e.name.endswith('set_esr')]) for p in ps], where=b.span)
+    bad = []
+    for esr in (0x00, 0x80, 0xFE, 0xFF, 0x3C):
+        dev = DM.Dev(esr=esr, ese=0x12, sre=0x34, queue=[SymV("e0", "e0")], regs=regs())
+        before = state_of(dev)
+        rs = DM.run(deng, b, dev, [RefV(Cell(SymV("device", "device"), "dev"), (), True)])
+        ok = len(rs) == 1 and M.outcome(rs[0][0]) == "Ok" and state_of(rs[0][1]) == ({"esr": esr | 0x01, "ese": 0x12, "sre": 0x34}, ["e0", "OperationComplete"], before[2])
+        if not ok:
+            bad.append("ESR=%#04x: %s" % (esr, [(M.outcome(r), state_of(d)[:2]) for r, d in rs]))
+    R.check(not bad, "R13.8", "scpi_opc", "ESR |= bit 0 (accumulating), OperationComplete appended once, nothing else changed", "; ".join(bad[:2]), where=b.span)
 
     # ---- R13.3 who may call ----------------------------------------------------------------------------------
     allowed = {
@@ -77,90 +109,68 @@ def run(R, tier):
         bad = [c for c in callers if not any(c == a or (not a.startswith("scpi_contrib::") and a in c) for a in allowed[m])]
         R.check(not bad and callers, "R13.3", "callers:" + m, "%s called only from %s" % (m, sorted(x.split("::")[-1] if "::" in x else x for x in allowed[m])), "%s is called from %s: only %s may (every queued item must be a reported failure or an *OPC event; ESR bits must come from errors)" % (m, sorted(bad) or "nowhere", sorted(allowed[m])))
 
-    # ---- R13.4-6 SYSTem:ERRor handlers ------------------------------------------------------------------------------
-    def handler(name):
-        bs = [x for x in uc.bodies if x.name == "query" and name in (x.impl_self or "") and "Command" in (x.impl_trait or "")]
-        if len(bs) != 1:
-            raise facts.AnchorLost("Command::query for %s" % name)
-        return bs[0]
+    # ---- R13.4-7 SYSTem:ERRor handlers and *ESR? on the abstract device ----------------------------------------------------
+    def is_noerror(v):
+        return isinstance(v, (AggV, EnumV)) and M.err_codes(v) == {"NoError"}
 
-    def run_query(body, loop_limit=3):
-        e = CB.engine("scpi_contrib", inline=lambda n, r: r.endswith("Error::new"), loop_limit=loop_limit)
-        args = [RefV(Cell(TOP, "cmd")), RefV(Cell(TOP, "dev"), (), True), RefV(Cell(TOP, "ctx"), (), True), SymV("params", "params"), SymV("response", "response")]
-        return [CB.Path(r) for r in e.run(body, args)]
+    def query(tname, dev):
+        hb = DM.find_handler(uc, tname, "query")
+        before = state_of(dev)
+        return hb, before, DM.run(deng, hb, dev, DM.handler_args())
 
-    b = handler("SystErrNextCommand")
-    ps = run_query(b)
-    good = bool(ps)
-    kinds = set()
-    for p in ps:
-        if p.count("pop_front_error") != 1 or p.count("data") != 1 or p.names[-1] != "finish" or p.outcome != "ret:finish":
-            good = False
-            continue
-        v = p.assumed_variant("pop_front_error", 0)
-        d = p.call("data").args[1]
-        if v == "Some":
-            kinds.add("item")
-            good = good and "pop_front_error" in repr(d) and ("field0" in repr(d) or "payload" in repr(d))
-        elif v == "None":
-            kinds.add("empty")
-            good = good and d[:2] == ("agg", "default")
-        else:
-            good = False
-    R.check(good and kinds == {"item", "empty"}, "R13.4", "SYST:ERR:NEXT?", "pops once; answers the popped item, or Error::default() when the queue is empty", "NEXT? must pop exactly one item and answer it (or the default error on an empty queue): %s" % [p.describe() for p in ps], where=b.span)
-    # Error::default() is NoError
+    def entries(k):
+        return [SymV("e%d" % i, "e%d" % i) for i in range(k)]
+
+    # NEXT?: returns and removes the oldest entry; 0,"No error" on an empty queue
+    bad = []
+    for k in range(0, 4):
+        hb, before, rs = query("SystErrNextCommand", DM.Dev(esr=0x24, ese=1, sre=2, queue=entries(k), regs=regs()))
+        ok = len(rs) == 1 and M.outcome(rs[0][0]) in ("Ok", "ret:finish") and rs[0][1].finished == 1 and len(rs[0][1].data) == 1
+        if ok:
+            d = rs[0][1]
+            got = d.data[0]
+            ok = (is_noerror(got) if k == 0 else _ident(got) == "e0") and state_of(d) == (before[0], before[1][1:], before[2])
+        if not ok:
+            bad.append("%d queued: answers %s, leaves %s" % (k, [[_ident(x) for x in d.data] for _, d in rs], [state_of(d)[1] for _, d in rs]))
+    R.check(not bad, "R13.4", "SYST:ERR:NEXT?", "answers and removes the oldest entry, 0,\"No error\" when empty; registers untouched (queue lengths 0..3)", "; ".join(bad[:3]), where=hb.span)
+    # Error::default() is NoError (the empty-queue answer of NEXT?)
     db = [x for x in us.bodies if x.name == "default" and (x.impl_self or "").endswith("error::Error")]
     if len(db) == 1:
-        e = sym.norm(sym.Sym(db[0].mir).local(0))
-        ok = e[0] == "call" and e[1].endswith("Error::new") and e[3][0][0] == "aggr" and e[3][0][3] == "NoError"
-        R.check(ok, "R13.4", "Error::default", "= Error::new(NoError): 0,\"No error\"", "Error::default() must be NoError: %s" % sym.show(e), where=db[0].span)
+        rs = deng.run(db[0], [])
+        ok = len(rs) == 1 and M.err_codes(rs[0].retval) == {"NoError"} and not _has_ext(rs[0].retval)
+        R.check(ok, "R13.4", "Error::default", "= 0,\"No error\" without extended text", "Error::default() is %s" % [r.retval for r in rs], where=db[0].span)
     else:
         R.anchor_lost("R13.4", "impl Default for Error")
-
-    b = handler("SystErrCountCommand")
-    ps = run_query(b)
-    good = len(ps) == 1 and ps[0].names == ["num_errors", "data", "finish"] and CB.ret_of(ps[0].call("data").args[1], "num_errors") and ps[0].outcome == "ret:finish"
-    R.check(good, "R13.5", "SYST:ERR:COUNt?", "answers num_errors(), removes nothing", "COUNt? must answer num_errors() and nothing else: %s" % [p.describe() for p in ps], where=b.span)
-
-    b = handler("SystErrAllCommand")
-    ps = run_query(b, loop_limit=4)
-    good = bool(ps)
-    kinds = set()
-    for p in ps:
-        if p.r.outcome == "cut":
-            continue
-        emp = p.assumed_ret("is_empty", 0)
-        if p.names[:1] != ["is_empty"]:
-            good = False
-            continue
-        if emp is True:
-            kinds.add("empty")
-            d = p.call("data")
-            good = good and p.names == ["is_empty", "data", "finish"] and "NoError" in repr(d.args[1]) and p.outcome == "ret:finish"
-        else:
-            kinds.add("drain")
-            # alternating pop / data(popped) ... final pop returns None, then finish
-            seq = p.calls[1:]
-            ok = seq and seq[-1].name.endswith("finish") and p.outcome == "ret:finish"
-            body_ = seq[:-1]
-            pops = [e for e in body_ if e.name.endswith("pop_front_error")]
-            datas = [e for e in body_ if e.name.endswith("::data")]
-            ok = ok and len(pops) == len(datas) + 1 and len(body_) == len(pops) + len(datas)
-            for i, dcall in enumerate(datas):
-                # i-th data follows the i-th pop and carries its payload
-                ok = ok and body_[2 * i] is pops[i] and body_[2 * i + 1] is dcall and "pop_front_error" in repr(dcall.args[1])
-            good = good and ok
-    R.check(good and kinds == {"empty", "drain"}, "R13.6", "SYST:ERR:ALL?", "empty: one NoError item; otherwise pop until None, one datum per popped item in pop order", "ALL? must answer NoError on an empty queue, otherwise report every popped item in order until the queue is empty: %s" % [p.describe() for p in ps][:6], where=b.span)
-
-    # ---- R13.7 *ESR? -----------------------------------------------------------------------------------------------
-    b = handler("EsrCommand")
-    ps = run_query(b)
-    good = len(ps) == 1
-    for p in ps:
-        names = p.names
-        ok = names == ["esr", "set_esr", "data", "finish"] and p.call("set_esr").args[1] == ("K", 0) and CB.ret_of(p.call("data").args[1], "esr") and p.outcome == "ret:finish"
-        good = good and ok
-    R.check(good, "R13.7", "*ESR?", "reads ESR, then clears it, answers the value read", "*ESR? must read the register before clearing it and answer the value read: %s" % [(p.describe(), [e.args[1:] for e in p.calls if e.name.endswith(('set_esr', '::data'))]) for p in ps], where=b.span)
+    # COUNt?
+    bad = []
+    for k in range(0, 4):
+        hb, before, rs = query("SystErrCountCommand", DM.Dev(esr=0x24, queue=entries(k), regs=regs()))
+        ok = len(rs) == 1 and M.outcome(rs[0][0]) in ("Ok", "ret:finish") and len(rs[0][1].data) == 1 and isinstance(rs[0][1].data[0], K) and rs[0][1].data[0].v == k and state_of(rs[0][1]) == before
+        if not ok:
+            bad.append("%d queued: %s" % (k, [(d.data, state_of(d)[1]) for _, d in rs]))
+    R.check(not bad, "R13.5", "SYST:ERR:COUNt?", "answers the number of unread entries and removes nothing (0..3 entries)", "; ".join(bad[:3]), where=hb.span)
+    # ALL?
+    bad = []
+    for k in range(0, 5):
+        hb, before, rs = query("SystErrAllCommand", DM.Dev(esr=0x24, queue=entries(k), regs=regs()))
+        ok = len(rs) == 1 and M.outcome(rs[0][0]) in ("Ok", "ret:finish") and rs[0][1].finished == 1
+        if ok:
+            d = rs[0][1]
+            got = [_ident(x) for x in d.data]
+            ok = (len(d.data) == 1 and is_noerror(d.data[0])) if k == 0 else got == ["e%d" % i for i in range(k)]
+            ok = ok and state_of(d) == (before[0], [], before[2])
+        if not ok:
+            bad.append("%d queued: answers %s, leaves %s" % (k, [[_ident(x) for x in d.data] for _, d in rs], [state_of(d)[1] for _, d in rs]))
+    R.check(not bad, "R13.6", "SYST:ERR:ALL?", "answers every entry oldest first and empties the queue; a single 0,\"No error\" when empty (0..4 entries)", "; ".join(bad[:3]), where=hb.span)
+    # *ESR?
+    bad = []
+    for esr in (0x00, 0x01, 0x80, 0xFF, 0x3C):
+        hb, before, rs = query("EsrCommand", DM.Dev(esr=esr, ese=0x5A, sre=0xA5, queue=entries(2), regs=regs()))
+        ok = len(rs) == 1 and M.outcome(rs[0][0]) in ("Ok", "ret:finish") and len(rs[0][1].data) == 1 and isinstance(rs[0][1].data[0], K) and rs[0][1].data[0].v == esr
+        ok = ok and state_of(rs[0][1]) == (dict(before[0], esr=0), before[1], before[2])
+        if not ok:
+            bad.append("ESR=%#04x: answers %s, leaves %s" % (esr, [d.data for _, d in rs], [d.r8 for _, d in rs]))
+    R.check(not bad, "R13.7", "*ESR?", "answers the accumulated bits and clears the register; ESE/SRE, queue and event registers untouched", "; ".join(bad[:3]), where=hb.span)
 
     # ---- R13.9 links shared with C05 / C12 ----------------------------------------------------------------------------
     paths = D.run_paths()
@@ -180,17 +190,43 @@ def run(R, tier):
     c12.check_queues(R, "R13.10")
 
     # ---- R13.2 documented wiring ------------------------------------------------------------------------------------------
+    check_wiring(R, "R13.2")
+
+
+def check_wiring(R, rule):
+    """The example device forwards handle_error -> push_error, cls -> scpi_cls, opc -> scpi_opc, stb -> scpi_stb unchanged:
+    the wiring the abstract device of sa/rules/devmodel.py assumes."""
     try:
         PE = facts.program("examples")
         R.configs.append("examples")
         ue = PE.unit("minimal_scpi")
-        hs = [x for x in ue.bodies if x.name == "handle_error" and "Device" in (x.impl_trait or "")]
-        if len(hs) != 1:
-            R.anchor_lost("R13.2", "Device::handle_error in examples/minimal_scpi.rs")
-        else:
+        for meth, trait, target, nargs in (("handle_error", "Device", "ScpiDevice::push_error", 2), ("cls", "IEEE4882", "ScpiDevice::scpi_cls", 1), ("opc", "IEEE4882", "ScpiDevice::scpi_opc", 1), ("stb", "IEEE4882", "ScpiDevice::scpi_stb", 1)):
+            hs = [x for x in ue.bodies if x.name == meth and trait in (x.impl_trait or "")]
+            if len(hs) != 1:
+                R.anchor_lost(rule, "%s::%s in examples/minimal_scpi.rs" % (trait, meth))
+                continue
             S = sym.Sym(hs[0].mir)
-            calls = list(hs[0].calls())
-            ok = len(calls) == 1 and calls[0].name.endswith("ScpiDevice::push_error") and sym.norm(S.operand(calls[0].args[1])) == ("arg", 2, "err")
-            R.check(ok, "R13.2", "documented-wiring", "example device: handle_error(err) = self.push_error(err)", "the documented wiring (examples/minimal_scpi.rs) must forward handle_error to push_error unchanged: %s" % [c.name for c in calls], where=hs[0].span)
+            calls = [c for c in hs[0].calls() if not c.name.startswith("core::")]
+            ok = len(calls) == 1 and calls[0].name.endswith(target) and sym.norm(S.operand(calls[0].args[0])) == ("arg", 1, "self")
+            if ok and nargs == 2:
+                ok = sym.norm(S.operand(calls[0].args[1]))[:2] == ("arg", 2)
+            if ok and meth != "handle_error":
+                ret = sym.norm(S.local(0))
+                ok = ret[0] == "call" and ret[1].endswith(target)
+            R.check(ok, rule, "documented-wiring:" + meth, "example device: %s forwards to %s unchanged" % (meth, target.split("::")[-1]), "the documented wiring (examples/minimal_scpi.rs) must forward %s to %s unchanged: %s" % (meth, target, [c.name for c in calls]), where=hs[0].span)
     except SystemExit as e:
-        R.violation("R13.2", "documented-wiring:build", "examples do not build: %s" % e)
+        R.violation(rule, "documented-wiring:build", "examples do not build: %s" % e)
+
+
+def _ident(v):
+    if isinstance(v, SymV):
+        return v.id
+    cs = M.err_codes(v)
+    return sorted(cs)[0] if cs else repr(v)
+
+
+def _has_ext(v):
+    if isinstance(v, AggV):
+        x = v.fields.get(1)
+        return isinstance(x, EnumV) and x.name == "Some"
+    return False
